@@ -283,13 +283,24 @@ func acceptDeflate(ext websocketExtension, mode CompressionMode) (*compressionOp
 			continue
 		}
 
-		if strings.HasPrefix(p, "client_max_window_bits=") {
+		if strings.HasPrefix(p, "client_max_window_bits=") && validWindowBits(strings.TrimPrefix(p, "client_max_window_bits=")) {
 			// We can't adjust the deflate window, but decoding with a larger window is acceptable.
 			continue
 		}
 		return nil, false
 	}
 	return copts, true
+}
+
+// validWindowBits reports whether v is a well-formed value of a
+// *_max_window_bits parameter: a decimal integer from 8 to 15 without
+// leading zeros (RFC 7692 section 7.1.2).
+func validWindowBits(v string) bool {
+	switch v {
+	case "8", "9", "10", "11", "12", "13", "14", "15":
+		return true
+	}
+	return false
 }
 
 func headerContainsTokenIgnoreCase(h http.Header, key, token string) bool {
